@@ -507,6 +507,7 @@ func (fl *e12Flow) liveEdges(ph *ssa.Phi) []ssa.Value {
 }
 
 type e12Flow struct {
+	exit       map[*ssa.Function]e12Facts // facts at every successful return, in the callee's own terms
 	at         ssa.Instruction
 	companions map[*types.Var][]*types.Var
 	p          *Prog
@@ -545,7 +546,7 @@ func (p *Prog) e12Flow() *e12Flow {
 		return p.e12f
 	}
 	fl := &e12Flow{p: p, tracked: p.e12Tracked(), killers: map[*types.Var]map[*ssa.Function]bool{},
-		entry: map[*ssa.Function]e12Facts{}, open: map[*ssa.Function]bool{}, in: map[*ssa.BasicBlock]e12Facts{},
+		entry: map[*ssa.Function]e12Facts{}, open: map[*ssa.Function]bool{}, in: map[*ssa.BasicBlock]e12Facts{}, exit: map[*ssa.Function]e12Facts{},
 		siteCall: map[ssa.Instruction][]*ssa.Function{}}
 	p.e12f = fl
 	fl.computeCompanions()
@@ -642,6 +643,8 @@ func (p *Prog) e12Flow() *e12Flow {
 		next := map[*ssa.Function]e12Facts{}
 		for _, fn := range p.Funcs {
 			fl.solve(fn)
+			var exitF e12Facts
+			haveExit := false
 			for _, b := range fn.Blocks {
 				facts := fl.in[b]
 				if facts == nil {
@@ -649,6 +652,33 @@ func (p *Prog) e12Flow() *e12Flow {
 				}
 				facts = facts.clone()
 				for _, in := range b.Instrs {
+					if ret, isRet := in.(*ssa.Return); isRet && fn.Parent() == nil {
+						// a return that reports success: no error result, or a nil one
+						okRet := true
+						if n := len(ret.Results); n > 0 && isErrorType(ret.Results[n-1].Type()) {
+							rv := ret.Results[n-1]
+							// functions with a defer return through spilled result cells
+							if u, isLoad := rv.(*ssa.UnOp); isLoad {
+								if sv := reachingStore(u); sv != nil {
+									rv = sv
+								}
+							}
+							okRet = IsNilConst(rv)
+						}
+						if okRet {
+							only := e12Facts{}
+							for k := range facts {
+								if (strings.HasPrefix(k, "recv.") || strings.HasPrefix(k, "arg")) && !strings.HasPrefix(k, "?") {
+									only[k] = true
+								}
+							}
+							if !haveExit {
+								exitF, haveExit = only, true
+							} else {
+								exitF = meetE12(exitF, only)
+							}
+						}
+					}
 					switch x := in.(type) {
 					case *ssa.MakeClosure:
 						if c, ok := x.Fn.(*ssa.Function); ok && inFuncs[c] {
@@ -671,6 +701,12 @@ func (p *Prog) e12Flow() *e12Flow {
 						}
 					}
 					fl.transfer(in, facts)
+				}
+			}
+			if haveExit {
+				if old, ok := fl.exit[fn]; !ok || !sameFacts(old, exitF) {
+					fl.exit[fn] = exitF
+					changed = true
 				}
 			}
 		}
@@ -933,6 +969,32 @@ func (fl *e12Flow) transfer(in ssa.Instruction, facts e12Facts) {
 				}
 			}
 		}
+		// what the callee has established on every successful return holds after the call
+		// (at once when it reports no error, else on the nil side of the test of its error)
+		cc := x.Common()
+		if sc := cc.StaticCallee(); sc != nil && !cc.IsInvoke() {
+			if ex := fl.exit[sc]; len(ex) > 0 {
+				call, isCall := in.(*ssa.Call)
+				res := sc.Signature.Results()
+				hasErr := res.Len() > 0 && isErrorType(res.At(res.Len()-1).Type())
+				for k := range ex {
+					for i, a := range cc.Args {
+						if i >= len(sc.Params) {
+							break
+						}
+						pn := paramName(sc.Params[i])
+						if strings.HasPrefix(k, pn+".") {
+							path := Desc(a) + k[len(pn):]
+							if !hasErr {
+								facts[path] = true
+							} else if isCall {
+								facts[fmt.Sprintf("?%p|%s", call, path)] = true
+							}
+						}
+					}
+				}
+			}
+		}
 	}
 }
 
@@ -975,6 +1037,15 @@ func (fl *e12Flow) edgeFacts(b *ssa.BasicBlock, k int, facts e12Facts) {
 		}
 		if fl.tracked[fv] != "" {
 			return
+		}
+	}
+	// the single error result of a call that establishes fields when it succeeds
+	if call, ok := o.(*ssa.Call); ok && isErrorType(call.Type()) && !nonNilSide {
+		pre := fmt.Sprintf("?%p|", call)
+		for kf := range facts {
+			if strings.HasPrefix(kf, pre) {
+				facts[kf[len(pre):]] = true
+			}
 		}
 	}
 	// the error of a call whose first result was stored into a tracked field
@@ -1264,6 +1335,16 @@ func DumpE12(p *Prog) {
 	sort.Strings(ks)
 	for _, k := range ks {
 		fmt.Println("TRACKED", k)
+	}
+	for fn, ex := range p.e12Flow().exit {
+		if len(ex) > 0 {
+			var ks []string
+			for k := range ex {
+				ks = append(ks, k)
+			}
+			sort.Strings(ks)
+			fmt.Println("EXIT", p.FuncName(fn), ks)
+		}
 	}
 	for g, cs := range p.e12Flow().companions {
 		for _, c := range cs {
